@@ -81,6 +81,19 @@ class Distance(torch.nn.Module):
         return self._postprocess(res) if postprocess else res
 
 
+def _index_batch_shape(batch_shape, index):
+    # the shape that remains of `batch_shape` after indexing a tensor of that batch shape with `index`
+    index = index if isinstance(index, tuple) else (index,)
+    return torch.empty(*batch_shape, 0).__getitem__(index).shape[:-1]
+
+
+def _set_sub_kernel(kernel, name, sub_kernel):
+    # `name` comes from `named_sub_kernels` and may be a dotted path into a container (e.g. "kernels.0")
+    *parent_path, leaf = name.split(".")
+    parent = kernel.get_submodule(".".join(parent_path)) if parent_path else kernel
+    parent.__setattr__(leaf, sub_kernel)
+
+
 class Kernel(Module):
     r"""
     Kernels in GPyTorch are implemented as a :class:`gpytorch.Module` that, when called on two :class:`torch.Tensor`
@@ -406,7 +419,7 @@ class Kernel(Module):
 
         # Recurse, if necessary
         for sub_module_name, sub_module in self.named_sub_kernels():
-            new_kernel.__setattr__(sub_module_name, sub_module.expand_batch(new_batch_shape))
+            _set_sub_kernel(new_kernel, sub_module_name, sub_module.expand_batch(new_batch_shape))
 
         return new_kernel
 
@@ -583,7 +596,7 @@ class Kernel(Module):
 
         if len(self._batch_shape):
             # the kernel's own batch shape is indexed as well (also when it owns no batched parameter or buffer)
-            new_kernel.batch_shape = torch.empty(*self._batch_shape, 0).__getitem__(index).shape[:-1]
+            new_kernel.batch_shape = _index_batch_shape(self._batch_shape, index)
 
         for param_name, param in self.named_parameters(recurse=False):
             new_param = new_kernel.__getattr__(param_name)
@@ -603,7 +616,7 @@ class Kernel(Module):
             new_kernel.batch_shape = new_buffr.shape[:new_batch_shape_len]
 
         for sub_module_name, sub_module in self.named_sub_kernels():
-            new_kernel.__setattr__(sub_module_name, sub_module.__getitem__(index))
+            _set_sub_kernel(new_kernel, sub_module_name, sub_module.__getitem__(index))
 
         return new_kernel
 
@@ -644,6 +657,8 @@ class AdditiveKernel(Kernel):
 
     def __getitem__(self, index) -> Kernel:
         new_kernel = deepcopy(self)
+        if len(self._batch_shape):
+            new_kernel.batch_shape = _index_batch_shape(self._batch_shape, index)
         for i, kernel in enumerate(self.kernels):
             new_kernel.kernels[i] = kernel.__getitem__(index)
 
@@ -701,6 +716,8 @@ class ProductKernel(Kernel):
 
     def __getitem__(self, index) -> Kernel:
         new_kernel = deepcopy(self)
+        if len(self._batch_shape):
+            new_kernel.batch_shape = _index_batch_shape(self._batch_shape, index)
         for i, kernel in enumerate(self.kernels):
             new_kernel.kernels[i] = kernel.__getitem__(index)
 
